@@ -45,6 +45,8 @@ ASSUMPTIONS = [
     'execution; reference models and fresh twins are built inside a save/clear/restore bracket.  c08.intern makes the caches explored state: within one execution the same '
     'chemicals are requested in every order (all permutations of a 2- and a 3-list) and with the ideal and the Dortmund package, every sequence of 2 (thorough: 3) requests; '
     'c08.history keeps every returned result object and re-checks all of them (bit-identical) after each later call',
+    'tmo.settings\' default package is set by the harness at every build to a package that differs from the one under test; every small class-/module-level container of '
+    'thermosteam._chemical and thermosteam.free_energy (besides thermosteam.equilibrium.*) is reset per execution (the cache=True chemical registry excepted)',
     'documented solver rejections (InfeasibleRegion, non-convergence RuntimeError) are counted as rejected, not judged; any other exception type is a violation',
 ]
 TOLERANCES = {
@@ -126,6 +128,13 @@ def _thermo(pkg, ids):
             _pcf_thermos[key] = tmo.Thermo(base.chemicals, PCF=_eq.IdealGasPoyintingCorrectionFactors)
         return _pcf_thermos[key]
     raise ValueError(pkg)
+
+def set_default_package(pkg, ids):
+    """tmo.settings' process-wide default package is owned by the harness: during an execution it is a package that DIFFERS from the
+    one under test (ideal when an activity-coefficient package is tested, Dortmund otherwise), so that a solver that silently falls
+    back to the default instead of the package it was created for cannot give the right answer by accident"""
+    other = 'dortmund' if pkg == 'ideal' else 'ideal'
+    fx.tmo().settings.set_thermo(_thermo(other, sorted_ids(ids)))
 
 def _chems(ids):
     return tuple(fx.chemical(i) for i in ids)
@@ -354,6 +363,7 @@ class Grid(System):
         pkg, ids, spec, val, rel, ks, full, *rest = config        # (older witness files have no trace-level field)
         st = type('St', (), {})()
         st.m = model(pkg, ids)
+        set_default_package(pkg, ids)
         st.spec, st.val, st.rel, st.ks, st.full = spec, val, rel, ks, full
         st.levels = tuple(rest[0]) if rest else ()
         st.tag = None
@@ -579,7 +589,9 @@ def judge(m, kind, spec, val, z, T, P, f, where=''):
     if npos(z) == 1:
         i = int(np.argmax(zn)); c = m.chems[i]
         unit = np.zeros(len(z)); unit[i] = 1.0
-        ok = np.array_equal(f, unit) and (rel(P, float(c.Psat(T))) <= (1e-12 if spec == 'T' else 2e-2))
+        # Psat(T_returned) == P is evaluated by the harness itself (a comparison with Chemical.Tsat would share a memo with it);
+        # at exactly 101325 Pa Tsat is the tabulated boiling point (listed finding), hence the wide tolerance there only
+        ok = np.array_equal(f, unit) and (rel(P, float(c.Psat(T))) <= (1e-12 if spec == 'T' else (2e-2 if val == 101325.0 else 1e-5)))
         if not ok:
             raise Violation('single-component', f'{who}: T={T!r} P={P!r} fractions {f.tolist()} (Psat_{c.ID}(T)={float(c.Psat(T))!r})', match=mt)
         return
@@ -621,8 +633,10 @@ class History(System):
     name = 'c08.history'
     nontrivial_per_config = True
     LISTS = [('Water', 'Ethanol', 'Methanol'), ('Hexane', 'Benzene')]
-    ZS = {3: [(0.5, 0.25, 0.25), (0.0, 0.75, 0.25), (1.0, 0.0, 0.0)], 2: [(0.25, 0.75), (0.0, 1.0)]}
+    # two DIFFERENT pure components per list: single-component solves of chemical A then chemical B at the same P (and B then A)
+    ZS = {3: [(0.5, 0.25, 0.25), (0.0, 0.75, 0.25), (1.0, 0.0, 0.0), (0.0, 1.0, 0.0)], 2: [(0.25, 0.75), (0.0, 1.0), (1.0, 0.0)]}
     SPECS = [('T', 300.0), ('T', 400.0), ('P', 101325.0), ('P', 1e6)]
+    PKGS = ('ideal', 'dortmund')
 
     def warm(self): Grid.warm(self)
     def depth(self, tier): return 2          # every kept result makes a history a distinct state: the full alphabet is paired exhaustively in both tiers
@@ -636,8 +650,10 @@ class History(System):
         eq = _load()
         st = type('St', (), {})()
         st.ids = ids
-        st.ms = {p: model(p, ids) for p in ('ideal', 'dortmund')}
+        st.ms = {p: model(p, ids) for p in self.PKGS}
+        fx.tmo().settings.set_thermo(_thermo('dortmund+pcf', sorted_ids(ids)))     # a default package that is none of the packages under test
         pk = {'lazy': (), 'ideal-first': ('ideal', 'dortmund'), 'dortmund-first': ('dortmund', 'ideal')}[order]
+        pk = tuple(p for p in pk if p in self.PKGS)
         st.objs = {}
         for p in pk:
             m = st.ms[p]
@@ -670,7 +686,7 @@ class History(System):
 
     def actions(self, st):
         n = len(st.ids)
-        return [(p, kind, spec, val, zi) for p in ('ideal', 'dortmund') for kind in ('bubble', 'dew') for (spec, val) in self.SPECS
+        return [(p, kind, spec, val, zi) for p in self.PKGS for kind in ('bubble', 'dew') for (spec, val) in self.SPECS
                 for zi in range(len(self.ZS[n]))]
 
     def _held_check(self, st):
@@ -714,6 +730,18 @@ class HistoryDeep(History):
         return History.configs(self, tier, seed) if tier == 'thorough' else []     # its depth-2 prefix is a subset of c08.history
 
 
+class HistoryLLE(History):
+    """a partially miscible pair under the activity-coefficient package: consecutive dew/bubble calls whose solutions lie on different
+    liquid branches (water-rich, hydrocarbon-rich, in between) on the same interned solver, each compared with a fresh solver; results
+    returned earlier must stay what they were.  The defining-equation oracle is applied as well."""
+    name = 'c08.history.lle'
+    LISTS = [('Water', 'Toluene')]
+    ZS = {2: [(0.97, 0.03), (0.1, 0.9), (0.5, 0.5)]}
+    SPECS = [('P', 50000.0), ('P', 101325.0), ('T', 350.0)]
+    PKGS = ('dortmund',)
+    def configs(self, tier, seed): return [(ids, 'lazy') for ids in self.LISTS]
+
+
 class Intern(System):
     """The interning caches as explored state: within ONE execution (caches emptied at build) the same chemicals are requested in
     every order and with both packages, in every sequence up to the depth bound; every call is judged with the grid oracles for the
@@ -732,6 +760,7 @@ class Intern(System):
     def build(self, config):
         st = type('St', (), {})()
         st.ids = config[0]
+        fx.tmo().settings.set_thermo(_thermo('dortmund+pcf', sorted_ids(st.ids)))
         st.perms = list(itertools.permutations(range(len(st.ids))))
         st.calls = ()
         st.tag = None
@@ -770,6 +799,7 @@ class Intern(System):
 SYSTEMS = [
     History(),
     HistoryDeep(),
+    HistoryLLE(),
     Intern(),
     Grid('c08.grid.ideal', ('ideal',), full_in_quick=True),
     Grid('c08.grid.gamma', ('dortmund',)),
